@@ -296,6 +296,13 @@ class Interp:
                 base.stores.append((tuple(self.frames), idx, rhs, type(s.op).__name__, s))
                 self._touch(base)
                 return
+            if isinstance(s.target.value, ast.Attribute) and s.target.value.attr == "data":
+                owner = self.eval(s.target.value.value, cc)
+                if isinstance(owner, ObjV) and owner.ext == "sparse":
+                    idx = self.eval_index(s.target.slice, cc)
+                    owner.stores.append((tuple(self.frames), TupleV([Const("data"), idx]), rhs, type(s.op).__name__, s))
+                    self._touch(owner)
+                    return
         new = self.binop(s.op, cur, rhs, s)
         self.assign(s.target, new, cc, s)
 
@@ -333,6 +340,10 @@ class Interp:
             elif isinstance(base, ListV):
                 base.log.append(("setitem", idx, v, tuple(self.frames)))
                 self._list_setitem(base, idx, v)
+            elif isinstance(base, Term) and base.op == "arritem" and isinstance(base.kw.get("arr"), ObjV):
+                arr = base.kw["arr"]
+                arr.stores.append((tuple(self.frames), TupleV([base.args[1], idx]), v, None, stmt))
+                self._touch(arr)
             elif isinstance(base, (Grid, Term, Num)):
                 # functional arrays: rebind the plain name to a 'setitem' term (sound only if the value has no alias,
                 # which holds for values produced by pure library calls)
@@ -560,6 +571,7 @@ class Interp:
             b = Poly.app("comb_hi", Poly.atom(pair_idx))
             return ext, (lambda i: TupleV([Num(Poly.app("comb_lo", i)), Num(Poly.app("comb_hi", i))])), ("combinations", n)
         if isinstance(it, Grid) and it.ndim >= 1:
+            it = self.transfer.simplify_pw(self, it)
             if len(it.dims[0]) == 1:
                 idx0, ext = it.dims[0][0]
                 rest = it.dims[1:]
@@ -570,9 +582,24 @@ class Interp:
                         return Grid(rest, el)
                     return el
                 return ext, fn, ("grid", it)
-            # product dim: iterate over flat index
+            # product dim: iterate over the flat index f; axis indices are its mixed-radix digits
             ext = it.dim_len(0)
-            return ext, (lambda i, it=it: Term("flatitem", [it, Num(i)])), ("gridflat", it)
+            axes = it.dims[0]
+            rest = it.dims[1:]
+
+            def fn(i, it=it, axes=axes, rest=rest):
+                sub = {}
+                q = i
+                for k in range(len(axes) - 1, -1, -1):
+                    a, e = axes[k]
+                    if k == 0:
+                        sub[a] = q
+                    else:
+                        sub[a] = Poly.app("mod", q, e)
+                        q = Poly.app("div", q, e)
+                el = subst(it.elem, sub)
+                return Grid(rest, el) if rest else el
+            return ext, fn, ("gridflat", it)
         if isinstance(it, ListV):
             ln = items_len(it.items)
             if len(it.items) == 1 and isinstance(it.items[0], Loop) and len(it.items[0].items) == 1 and \
@@ -1476,11 +1503,11 @@ class Interp:
         if not isinstance(l, Grid) and not isinstance(r, Grid):
             return fn(l, r)
         if isinstance(l, Grid) and not isinstance(r, Grid):
-            if isinstance(r, (Num, Const, CondV)):
+            if isinstance(r, (Num, Const, CondV, Term)):
                 return Grid(l.dims, fn(l.elem, r))
             return Top(f"{opname}: grid with {type(r).__name__}")
         if isinstance(r, Grid) and not isinstance(l, Grid):
-            if isinstance(l, (Num, Const, CondV)):
+            if isinstance(l, (Num, Const, CondV, Term)):
                 return Grid(r.dims, fn(l, r.elem))
             return Top(f"{opname}: {type(l).__name__} with grid")
         # both grids: right-align dims
